@@ -22,6 +22,8 @@ pub enum Alpha {
     Space,
     /// two letters only (small scope)
     Tiny,
+    /// characters that ISO-8859-1 and windows-1252 encode identically
+    Latin1,
 }
 
 const FULL: &[(&str, u32)] = &[
@@ -97,6 +99,24 @@ const SPACE: &[(&str, u32)] = &[
 
 const TINY: &[(&str, u32)] = &[("x", 1), (" ", 1)];
 
+const LATIN1: &[(&str, u32)] = &[
+    ("a", 8),
+    ("b", 4),
+    (" ", 4),
+    ("\n", 3),
+    ("<", 3),
+    ("&", 3),
+    (">", 2),
+    ("\"", 2),
+    ("'", 2),
+    ("]", 2),
+    ("\u{a0}", 3),
+    ("é", 4),
+    ("ÿ", 2),
+    ("\t", 1),
+    ("\r", 1),
+];
+
 fn table(a: Alpha) -> &'static [(&'static str, u32)] {
     match a {
         Alpha::Full => FULL,
@@ -104,6 +124,7 @@ fn table(a: Alpha) -> &'static [(&'static str, u32)] {
         Alpha::Brackets => BRACKETS,
         Alpha::Space => SPACE,
         Alpha::Tiny => TINY,
+        Alpha::Latin1 => LATIN1,
     }
 }
 
@@ -142,6 +163,8 @@ pub enum Names {
     Html,
     /// a, b
     Tiny,
+    /// like Xml but restricted to Latin-1 letters
+    Latin,
 }
 
 const XML_LOCALS: &[&str] = &["a", "b", "c", "é", "名", "x-1", "y.z", "_u", "A"];
@@ -151,6 +174,7 @@ const HTML_LOCALS: &[&str] = &[
     "body", "head", "meta", "link", "a", "svg", "math", "foo", "x-y", "col", "wbr", "basefont",
 ];
 const TINY_LOCALS: &[&str] = &["a", "b"];
+const LATIN_LOCALS: &[&str] = &["a", "b", "c", "é", "x-1", "y.z", "_u", "A"];
 
 pub const URIS_XML: &[&str] = &["", "urn:a", "urn:b", "http://x/?a=1&b=2", "urn:c"];
 pub const URIS_HTML: &[&str] = &["", XHTML, SVG, MATHML, "urn:f", "https://www.w3.org/1999/xhtml"];
@@ -186,6 +210,8 @@ pub struct TreeOpts {
     pub xml_attrs: bool,
     /// allow empty and adjacent text nodes (history forests)
     pub raw_text: bool,
+    /// generate xml:id attributes (unique after normalisation, decorated with spaces)
+    pub xml_ids: bool,
 }
 
 impl TreeOpts {
@@ -203,6 +229,7 @@ impl TreeOpts {
             odd_uris: false,
             xml_attrs: true,
             raw_text: false,
+            xml_ids: false,
         }
     }
     pub fn tiny(max_nodes: usize) -> Self {
@@ -219,6 +246,7 @@ impl TreeOpts {
             odd_uris: false,
             xml_attrs: false,
             raw_text: false,
+            xml_ids: false,
         }
     }
 }
@@ -228,6 +256,7 @@ fn locals(n: Names) -> &'static [&'static str] {
         Names::Xml => XML_LOCALS,
         Names::Html => HTML_LOCALS,
         Names::Tiny => TINY_LOCALS,
+        Names::Latin => LATIN_LOCALS,
     }
 }
 
@@ -240,6 +269,7 @@ fn uris(o: &TreeOpts) -> Vec<&'static str> {
             .collect(),
         Names::Html => URIS_HTML.to_vec(),
         Names::Tiny => URIS_TINY.to_vec(),
+        Names::Latin => URIS_XML.iter().copied().filter(|u| o.odd_uris || !u.contains('&')).collect(),
     }
 }
 
@@ -301,6 +331,7 @@ struct G<'o> {
     o: &'o TreeOpts,
     budget: usize,
     fresh: usize,
+    ids: usize,
 }
 
 fn pick_unused_prefix(
@@ -363,6 +394,14 @@ fn gen_attrs(src: &mut Src, g: &mut G) -> Vec<(QName, String)> {
     }
     let n = src.weighted(&[6, 4, 2, 1]);
     let mut out: Vec<(QName, String)> = vec![];
+    if o.xml_ids && src.ratio(1, 5) {
+        g.ids += 1;
+        let core = if src.bool() { format!("i{}", g.ids) } else { format!("i{} z", g.ids) };
+        let lead = ["", " ", "  "][src.choice(3)];
+        let trail = ["", " ", "   "][src.choice(3)];
+        let core = if src.ratio(1, 3) { core.replace(' ', "   ") } else { core };
+        out.push((QName::new(XML_NS, "id"), format!("{}{}{}", lead, core, trail)));
+    }
     for _ in 0..n {
         let q = if o.xml_attrs && src.ratio(1, 8) {
             QName::new(XML_NS, if src.bool() { "space" } else { "lang" })
@@ -468,6 +507,7 @@ pub fn gen_element_tree(src: &mut Src, o: &TreeOpts) -> ANode {
         o,
         budget: o.max_nodes,
         fresh: 0,
+        ids: 0,
     };
     let e = gen_element(src, &mut g, 1, &scope::base_scope());
     let n = ANode::Element(e);
@@ -484,6 +524,7 @@ pub fn gen_document(src: &mut Src, o: &TreeOpts) -> ANode {
         o,
         budget: o.max_nodes,
         fresh: 0,
+        ids: 0,
     };
     let mut kids = vec![];
     let misc = |src: &mut Src, g: &mut G, kids: &mut Vec<ANode>| {
@@ -520,6 +561,7 @@ pub fn gen_fragment(src: &mut Src, o: &TreeOpts) -> ANode {
         o,
         budget: o.max_nodes,
         fresh: 0,
+        ids: 0,
     };
     let n = src.weighted(&[1, 4, 3, 2, 1]);
     let mut kids = vec![];
